@@ -350,6 +350,17 @@ class World:
                     if gd != d:
                         twin = any(a == m and a is not m for a in chain)
                         raise self.viol("C18.5 relative-depth", f"C18.5:relative-depth:{'equal-twin' if twin else 'other'}", f"after {kind}: get_depth(relative_to=ancestor) = {gd}, structure says {d}")
+                else:
+                    # documented: ValueError when relative_to is not an ancestor (another attached tree's root, a
+                    # sibling, a descendant, the node itself)
+                    try:
+                        gd = n.get_depth(relative_to=m)
+                    except ValueError:
+                        gd = "ValueError"
+                    if gd != "ValueError":
+                        twin = any(a == m and a is not m for a in chain)
+                        raise self.viol("C18.5 relative-depth-non-ancestor", f"C18.5:relative-depth-non-ancestor:{'equal-twin' if twin else 'other'}", f"after {kind}: {cname(n)}.get_depth(relative_to=a {cname(m)} that is no ancestor) = {gd} instead of ValueError")
+                    self.stats.probes["relative_depth_non_ancestor_checked"] += 1
 
     # ---- ops (successful, admissible) -------------------------------------------------------
     def before(self) -> None:
